@@ -68,15 +68,26 @@ Inductive okind :=
 | KCancel (cid : nat).                               (* the call's context is cancelled *)
 
 (* result classes of a call: 0 ok, 1 key already exists, 2 context, 3 other error, 9 hang/panic *)
+Definition tok_eqb (a b : list Z) : bool := if list_eq_dec Z.eq_dec a b then true else false.
+
 Record oret := mkRet { o_cid : nat; o_cls : Z; o_tok : list Z; o_for : nat; o_rid : nat }.
 Record oev := mkOev { o_k : okind; o_rets : list oret; o_fell : bool }.
 
-Definition tok_eqb (a b : list Z) : bool := if list_eq_dec Z.eq_dec a b then true else false.
 Definition mem (x : nat) (l : list nat) : bool := existsb (Nat.eqb x) l.
 Definition count (x : nat) (l : list nat) : nat := length (filter (Nat.eqb x) l).
 
+(* The one pair of tokens recorded as a known finding (F18, KNOWN_FINDINGS.txt): 42 and 422ff4422ff442b2 have
+   the same CRC-64/ISO. Class 5 is reserved for histories in which exactly these two tokens are confused;
+   any other pair of distinct tokens that the connection treats as equal is class 10, so that a new
+   confusion is never reported (and suppressed) as the known one. *)
+Definition known_a : list Z := [66].
+Definition known_b : list Z := [66; 47; 244; 66; 47; 244; 66; 178].
+Definition known_pair (a b : list Z) : bool :=
+  (tok_eqb a known_a && tok_eqb b known_b) || (tok_eqb a known_b && tok_eqb b known_a).
+
 Record ostate := mkO {
   outst : list (nat * list Z);   (* accepted, not yet returned *)
+  finished : list (list Z);      (* tokens of the accepted calls that have returned *)
   ackd : list nat;
   answered : list nat;           (* a response for it has arrived while it was outstanding *)
   injected : list nat;           (* rids of the datagrams / frames received so far *)
@@ -96,7 +107,8 @@ Section Class.
     else match tok_of (o_cid r) (outst s) with
          | None => 8%N
          | Some tok =>
-             if negb (tok_eqb (o_tok r) tok) then (if hash (o_tok r) =? hash tok then 5%N else 1%N)
+             if negb (tok_eqb (o_tok r) tok)
+             then (if known_pair (o_tok r) tok then 5%N else if hash (o_tok r) =? hash tok then 10%N else 1%N)
              else if negb (Nat.eqb (o_for r) (o_cid r)) then 2%N
              else if Nat.ltb (count (o_rid r) (injected s)) (S (count (o_rid r) (returned s ++ rets_before))) then 3%N
              else 0%N
@@ -110,7 +122,8 @@ Section Class.
     end.
 
   Definition same_tok_outst (tok : list Z) (s : ostate) : bool := existsb (fun p => tok_eqb (snd p) tok) (outst s).
-  Definition same_hash_outst (tok : list Z) (s : ostate) : bool := existsb (fun p => hash (snd p) =? hash tok) (outst s).
+  Definition known_pair_outst (tok : list Z) (s : ostate) : bool := existsb (fun p => known_pair (snd p) tok) (outst s).
+  Definition used_before (tok : list Z) (s : ostate) : bool := existsb (tok_eqb tok) (finished s).
 
   Definition returned_now (cid : nat) (l : list oret) : bool := existsb (fun r => Nat.eqb (o_cid r) cid) l.
   Definition rejected_now (cid : nat) (l : list oret) : bool :=
@@ -126,13 +139,13 @@ Section Class.
     let s1 :=
       match o_k e with
       | KStart cid tok a =>
-          mkO (if rejected_now cid rets then outst s else outst s ++ [(cid, tok)])
+          mkO (if rejected_now cid rets then outst s else outst s ++ [(cid, tok)]) (finished s)
               (if a then cid :: ackd s else ackd s) (answered s) (injected s) (returned s)
-      | KAck cid => mkO (outst s) (cid :: ackd s) (answered s) (injected s) (returned s)
+      | KAck cid => mkO (outst s) (finished s) (cid :: ackd s) (answered s) (injected s) (returned s)
       | KResp del dedup rid tok f ackfor =>
           let hit := negb dedup && existsb (fun p => Nat.eqb (fst p) f && tok_eqb (snd p) tok) (outst s)
                      && Nat.eqb (length (filter (fun p => hash (snd p) =? hash tok) (outst s))) 1 in
-          mkO (outst s) (match ackfor with Some c => c :: ackd s | None => ackd s end)
+          mkO (outst s) (finished s) (match ackfor with Some c => c :: ackd s | None => ackd s end)
               (if hit then f :: answered s else answered s) (rid :: injected s) (returned s)
       | KCancel cid => s
       end in
@@ -140,7 +153,13 @@ Section Class.
       match o_k e with
       | KStart cid tok a =>
           if rejected_now cid rets then
-            (if same_tok_outst tok s then 0 else if same_hash_outst tok s then 5 else 7)%N
+            (* refused: fine if a call with this very token is outstanding. Otherwise: the known pair (5); a
+               token whose earlier call has returned, i.e. a registration left behind (7); some other,
+               different token is outstanding and was taken for this one (10); nothing outstanding (7) *)
+            (if same_tok_outst tok s then 0
+             else if known_pair_outst tok s then 5
+             else if used_before tok s then 7
+             else match outst s with [] => 7 | _ => 10 end)%N
           else (if same_tok_outst tok s then 4 else 0)%N
       | _ => 0%N
       end in
@@ -150,7 +169,8 @@ Section Class.
       if forallb (fun p => negb (mem (fst p) (ackd s1) && mem (fst p) (answered s1)) || returned_now (fst p) rets) (outst s1)
       then 0%N else 6%N in
     let c := if negb (N.eqb kind_class 0) then kind_class else if negb (N.eqb rc 0) then rc else live in
-    (c, mkO (remove_returned rets (outst s1)) (ackd s1) (answered s1) (injected s1)
+    (c, mkO (remove_returned rets (outst s1))
+            (map snd (filter (fun p => returned_now (fst p) rets) (outst s1)) ++ finished s1) (ackd s1) (answered s1) (injected s1)
             (map o_rid (filter (fun r => o_cls r =? 0) rets) ++ returned s1)).
 
   Fixpoint evs_class (s : ostate) (l : list oev) : N :=
@@ -159,5 +179,5 @@ Section Class.
     | e :: q => let '(c, s') := ev_class s e in if N.eqb c 0 then evs_class s' q else c
     end.
 
-  Definition c03_class (l : list oev) : N := evs_class (mkO [] [] [] [] []) l.
+  Definition c03_class (l : list oev) : N := evs_class (mkO [] [] [] [] [] []) l.
 End Class.
